@@ -693,7 +693,20 @@ func c14Baseline(c *Ctx, p *Prog) {
 			c.Check(mentionsBaseline(a[1]) && !mentionsBaseline(a[2]), R, fmt.Sprintf("%s:FormatDelta-args#%d", fnName(f), nf), p.pos(call.Pos()), "FormatDelta(baseline centre, cell centre)", "the delta is rendered with (old, new) not being (baseline centre, cell centre): the sign or the reference of the percentage is wrong")
 		})
 	}
-	c.Floor(R, "FormatDelta call sites", nf, 2)
+	c.Floor(R, "FormatDelta call sites", nf, 1)
+	// both renderers get their delta from such a call, directly or through a helper of the package
+	nr := 0
+	for _, name := range []string{"ToText", "ToCSV"} {
+		if r := p.Method(btabRel, "Table", name); r != nil {
+			for _, f := range staticReach([]*ssa.Function{r}, modPath+"/"+btabRel) {
+				if len(callsIn(f, bmathPkg, "Comparison", "FormatDelta")) > 0 {
+					nr++
+					break
+				}
+			}
+		}
+	}
+	c.Floor(R, "renderers that format the delta through FormatDelta", nr, 2)
 }
 
 func c14Assumption(c *Ctx, p *Prog) {
